@@ -34,3 +34,36 @@ def alignments(rng, k=None, names=None, alphabet=NT, gaps=True, lmin=4, lmax=14)
 def multi_case(als, argv, tag, files=None):
     fs = "_" if not files else ";;".join("%s=%s" % (k, esc(v)) for k, v in files.items())
     return Case("detmulti", [";;".join(esc(phylip(a)) for a in als), fs] + [str(a) for a in argv] + ["-p"], True, tag)
+
+
+def _parse(block):
+    lines = [l for l in block.split("|") if l.strip()]
+    rows = []
+    for l in lines[1:]:
+        f = l.split()
+        if len(f) == 2:
+            rows.append((f[0], f[1]))
+    return rows
+
+
+def shrink(c):
+    """fewer alignments (at least two), fewer rows, fewer columns"""
+    als = [_parse(b) for b in c.args[0].split(";;") if b]
+    rest = list(c.args[1:])
+
+    def mk(a2):
+        return Case("detmulti", [";;".join(esc(phylip(a)) for a in a2)] + rest)
+    if len(als) > 2:
+        for i in range(len(als)):
+            yield mk(als[:i] + als[i + 1:])
+    n = min(len(a) for a in als)
+    for i in range(n - 1, 0, -1):            # keep the first row (often the reference)
+        yield mk([a[:i] + a[i + 1:] for a in als])
+    for k, a in enumerate(als):
+        L = len(a[0][1])
+        if L > 1:
+            for lo, hi in ((0, L // 2), (L // 2, L)):
+                if hi - lo < L:
+                    yield mk(als[:k] + [[(nm, s[:lo] + s[hi:]) for nm, s in a]] + als[k + 1:])
+            for j in range(L):
+                yield mk(als[:k] + [[(nm, s[:j] + s[j + 1:]) for nm, s in a]] + als[k + 1:])
